@@ -22,7 +22,7 @@ Proof. exact if_chain_false. Qed.
 (* an unknown identifier as a condition is falsy, anywhere in the chain *)
 Theorem C07_if_chain_unknown : forall G fuel st c b rest els n st1,
   eval G fuel st c = RErr (EUnknown n) st1 ->
-  eval_if G (S fuel) st ((c, b) :: rest) els = eval_if G fuel st1 rest els.
+  eval_if G (S fuel) st ((c, b) :: rest) els = eval_if G fuel (with_stmt st1 (sstmt st)) rest els.
 Proof. exact if_chain_unknown. Qed.
 
 Theorem C07_if_chain_end : forall G fuel st els,
@@ -38,7 +38,7 @@ Proof. exact bang_uses_truthy. Qed.
 
 Theorem C07_bang_unknown : forall G fuel st lit e n st1,
   eval G fuel st e = RErr (EUnknown n) st1 ->
-  eval G (S fuel) st (EPrefix lit [33%N] e) = ROk (VBool true, st1).
+  eval G (S fuel) st (EPrefix lit [33%N] e) = ROk (VBool true, with_stmt st1 (sstmt st)).
 Proof. exact bang_unknown_is_true. Qed.
 
 (* && and || decide by the same truth value and short-circuit *)
